@@ -53,7 +53,7 @@ ASSUMPTIONS = ['the per-pixel weights returned by Aperture.to_mask() and its bbo
                'histories of an aperture object: one used state followed by single assignments of every public parameter '
                '(float values; theta as float radians); the representation of theta and longer histories belong to C01 / C09']
 
-METHODS = [('exact', 5), ('center', 5), ('subpixel', 5)]
+METHODS = [('exact', 5), ('center', 5), ('subpixel', 5), ('subpixel', 2), ('exact', 1)]  # subpixels must be honoured for 'subpixel' and ignored for 'exact'
 VARIANTS = ['finite', 'nan', 'inf']
 
 # Tolerances.  A sum of n <= 36 products accumulated in double precision in two
